@@ -51,7 +51,8 @@ def rescale_box(
 
     def forward(sample: Float[ArrayLike, " ..."]) -> Float[Array, " ..."]:
         sample = jnp.asarray(sample)
-        return gradient * sample + intercept
+        # Rounding must not push a sample of the original box outside the rescaled box
+        return jnp.clip(gradient * sample + intercept, min, max)
 
     def backward(sample: Float[ArrayLike, " ..."]) -> Float[Array, " ..."]:
         sample = jnp.asarray(sample)
